@@ -2,7 +2,7 @@
 from vf.coqterm import N, B, L, T, Opt, Rec
 
 ID = "C05"
-COQ_TARGETS = ["props/C05.vo", "model/IPFilterCheck.vo"]
+COQ_TARGETS = ["props/C05.vo", "props/C05Mux.vo", "model/IPFilterCheck.vo"]
 THEOREMS = [
     ("EG.props.C05", "contains_is_prefix_equality"),
     ("EG.props.C05", "C05_decision_table"),
@@ -14,6 +14,9 @@ THEOREMS = [
     ("EG.props.C05", "C05_mini_cached_enforced_general"),
     ("EG.props.C05", "C05_refuted_q_mapped_entry_dead"),
     ("EG.props.C05", "C05_refuted_q_hit_skips_visited_rules"),
+    # the same two clauses on the full router model (model/Mux.v, tied to mux.go by the C01/C12 correspondence)
+    ("EG.props.C05Mux", "C05_denied_never_dispatched"),
+    ("EG.props.C05Mux", "C05_not_denied_unaffected"),
 ]
 HARNESSES = [
     dict(name="ipf", pkg="pkg/util/ipfilter", files=["harness/ipfilter/zz_verif_c05_test.go"],
